@@ -305,20 +305,27 @@ func (b *Body) markFresh(x *T, older []*T) {
 			reg := parts[0]
 			cur := ft.region(st, reg)
 			xv := fmt.Sprintf("j!%d", ft.count("qv"))
+			// index sort of the region (ghost tables are keyed by Str, heaps by Ref)
+			ixSort := "Ref"
+			if rs := ft.regionSort(reg); strings.HasPrefix(rs, "(Array ") {
+				if f := strings.Fields(strings.TrimPrefix(rs, "(Array ")); len(f) > 0 && !strings.HasPrefix(f[0], "(") {
+					ixSort = f[0]
+				}
+			}
 			if len(parts) >= 2 && parts[1] == "[]" {
 				jv := fmt.Sprintf("j!%d", ft.count("qv"))
 				term := Sel(Sel(cur, L(xv)), L(jv))
 				for _, sl := range parts[2:] {
 					term = A(sl, term)
 				}
-				ft.fact(Forall([][2]string{{xv, "Ref"}, {jv, "Int"}}, Not(Eq(term, x)), []*T{term}))
+				ft.fact(Forall([][2]string{{xv, ixSort}, {jv, "Int"}}, Not(Eq(term, x)), []*T{term}))
 				continue
 			}
 			term := Sel(cur, L(xv))
 			for _, sl := range parts[1:] {
 				term = A(sl, term)
 			}
-			ft.fact(Forall([][2]string{{xv, "Ref"}}, Not(Eq(term, x)), []*T{term}))
+			ft.fact(Forall([][2]string{{xv, ixSort}}, Not(Eq(term, x)), []*T{term}))
 		}
 	}
 }
